@@ -750,28 +750,45 @@ def check_untouched(kind, active_mode, n=1, nlayer=2):
 
 
 def check_batch(seed, n_jobs=None):
-    """batch vs individual, repeated, optionally joblib: bitwise"""
+    """batch vs individual, repeated, optionally joblib: bitwise against the individual (frequency, snowpack) runs of the same sensor, and to
+    1e-9 K against the individual (frequency, snowpack, angle) runs; the container type, its key order and the order of the viewing angles
+    are drawn at random"""
     from smrt.core.sensor import passive
     from smrt.core.model import JoblibParallelRunner
+    import pandas as pd
     rng = np.random.default_rng(seed)
     m = dort_model()
     n = int(rng.integers(2, 6))
     sps = [mk_snowpack(rng, "b%d" % i) for i in range(n)]
     fr = [float(x) for x in rng.choice(FREQS[1:6], int(rng.integers(2, 4)), replace=False)]
-    sensor = passive(fr, [35., 55.])
-    r = m.run(sensor, sps)
+    th = [float(x) for x in rng.permutation(rng.choice([15., 25., 35., 45., 55., 65.], int(rng.integers(2, 5)), replace=False))]
+    sensor = passive(fr, th)
+    kind = ["list", "dict", "series"][int(rng.integers(0, 3))]
+    labels = [str(x) for x in rng.permutation(["site_%s" % c for c in "ABCDEFG"[:n]])]       # insertion order is not sorted order
+    if kind == "dict":
+        cont, dim, keys = dict(zip(labels, sps)), "snowpack", labels
+    elif kind == "series":
+        cont, dim, keys = pd.Series(sps, index=pd.Index(labels, name="site")), "site", labels
+    else:
+        cont, dim, keys = sps, "snowpack", list(range(n))
+    r = m.run(sensor, cont)
     problems = []
     for f in fr:
         for si, sp in enumerate(sps):
-            want = np.asarray(m.run(passive(f, [35., 55.]), sp).data.values)
-            got = np.asarray(r.data.sel(frequency=f, snowpack=si).values)
+            want = np.asarray(m.run(passive(f, th), sp).data.values)
+            got = np.asarray(r.data.sel(**{"frequency": f, dim: keys[si]}).values)
             if want.tobytes() != got.tobytes():
-                problems.append(("batch", f, si, float(np.max(np.abs(want - got)))))
-    r2 = m.run(sensor, sps)
+                problems.append(("batch", kind, f, si, float(np.max(np.abs(want - got)))))
+            for t in th:
+                one = np.asarray(m.run(passive(f, t), sp).data.values).ravel()
+                g = np.asarray(r.data.sel(**{"frequency": f, dim: keys[si], "theta": t}).values).ravel()
+                if not float(np.max(np.abs(one - g))) <= 1e-9:
+                    problems.append(("batch-angle", kind, f, si, t, float(np.max(np.abs(one - g)))))
+    r2 = m.run(sensor, cont)
     if np.asarray(r.data.values).tobytes() != np.asarray(r2.data.values).tobytes():
         problems.append(("repeat", float(np.max(np.abs(r.data.values - r2.data.values)))))
     if n_jobs:
-        r3 = m.run(sensor, sps, runner=JoblibParallelRunner(progressbar=False, n_jobs=n_jobs))
+        r3 = m.run(sensor, cont, runner=JoblibParallelRunner(progressbar=False, n_jobs=n_jobs))
         if np.asarray(r.data.values).tobytes() != np.asarray(r3.data.values).tobytes():
             problems.append(("parallel", n_jobs, float(np.max(np.abs(r.data.values - r3.data.values)))))
     return problems
